@@ -106,7 +106,7 @@ func run(c *hk.Ctx) {
 	if root == "" {
 		root = "/verif"
 	}
-	depth, limit := 8, 350
+	depth, limit := 8, 600
 	if c.Thorough() {
 		depth, limit = 9, 100000
 	}
@@ -173,12 +173,18 @@ func run(c *hk.Ctx) {
 	}
 	for _, s := range witness {
 		runSchedule(c, ctl, s, true)
+		resumeVariant = true
+		runSchedule(c, ctl, s, true)
+		resumeVariant = false
 	}
 	// the model's witness for the "no closed mark" region always runs (lookup, client drops the stream, handler returns, write)
 	runSchedule(c, ctl, []ev{{E: "open", N: &i0}, {E: "store", N: &i0}, {E: "flush", N: &i0}, {E: "sendBegin", M: &m}, {E: "close", N: &i0}, {E: "wake", N: &i0}, {E: "exit", N: &i0}, {E: "sendEnd", M: &m}}, true)
-	for _, s := range scheds {
+	for i, s := range scheds {
+		// every second two-handler schedule runs in the resumption variant (reopen with Last-Event-ID)
+		resumeVariant = i%2 == 1
 		runSchedule(c, ctl, s, false)
 	}
+	resumeVariant = false
 	for _, s := range en2.Schedules {
 		runSchedule(c, ctl, s, false)
 	}
@@ -186,11 +192,15 @@ func run(c *hk.Ctx) {
 
 var runNo int
 
+// resumeVariant: every GET after the first carries a Last-Event-ID header (stream resumption path of handleGet).
+var resumeVariant bool
+
 func runSchedule(c *hk.Ctx, ctl *controller, sched []ev, isWitness bool) {
 	runNo++
 	if os.Getenv("VERIF_DEBUG") != "" {
 		b, _ := json.Marshal(sched)
-		fmt.Fprintln(os.Stderr, "schedule:", string(b))
+		t0 := time.Now()
+		defer func() { fmt.Fprintln(os.Stderr, "schedule:", time.Since(t0).Milliseconds(), "ms", string(b)) }()
 	}
 	f := hk.NewFixture(hk.SrvCfg{Mode: "stateful", Get: true, PostSSE: false})
 	defer f.Close()
@@ -299,7 +309,11 @@ func runSchedule(c *hk.Ctx, ctl *controller, sched []ev, isWitness bool) {
 			h.done = make(chan struct{})
 			hs[n] = h
 			go func() {
-				st, _, s, _ := f.OpenStream(map[string]string{"Mcp-Session-Id": sid, "X-Verif-Conn": h.tag})
+				hdr := map[string]string{"Mcp-Session-Id": sid, "X-Verif-Conn": h.tag}
+				if resumeVariant && n > 0 {
+					hdr["Last-Event-ID"] = "evt-1-1"
+				}
+				st, _, s, _ := f.OpenStream(hdr)
 				h.status, h.stream = st, s
 				close(h.done)
 			}()
@@ -504,7 +518,11 @@ func runSchedule(c *hk.Ctx, ctl *controller, sched []ev, isWitness bool) {
 			}
 		}
 		for _, p := range pending {
-			if n := findMarker(p.marker, ceiling); n >= 0 {
+			wait := ceiling
+			if len(closedByUs) > 0 {
+				wait = 400 * time.Millisecond // the frame most likely went to a stream we dropped: nothing will ever show up
+			}
+			if n := findMarker(p.marker, wait); n >= 0 {
 				outs[p.idx] = map[string]any{"delivered": n}
 			} else {
 				if len(closedByUs) > 0 {
@@ -516,6 +534,9 @@ func runSchedule(c *hk.Ctx, ctl *controller, sched []ev, isWitness bool) {
 		}
 	}
 	tags := []string{"schedule"}
+	if resumeVariant {
+		tags = append(tags, "reopen-with-last-event-id")
+	}
 	if isWitness {
 		tags = append(tags, "model-witness-schedule")
 	}
